@@ -65,6 +65,11 @@ theorem c12_tok_strict_refines_spec (cfg : Cfg) (reg : SReg) (ctx : Ctx) (hbf : 
     simp only [Except.toOption, Option.map, Option.some.injEq] at h1
     simp [h1]
 
+/-- The grammar AST is recoverable from the tokens: `parse` inverts `flatten` on every template with non-nested
+    blocks — so the specification the driver runs next to the passes is the specification OF the rendered template. -/
+theorem c12_parse_flatten (t : Tmpl) (hwf : ∀ s ∈ t, s.wf = true) : parse (flatten t) = some t :=
+  parse_flatten t hwf
+
 /-! ## Missing variables are reported -/
 
 /-- CORE.  (a) strict mode: an unbound `{{name}}` anywhere in the template makes the render fail with the
@@ -247,6 +252,9 @@ example : BF eCfg eCtx ∧ Grammar eTmpl ∧ GrammarReg eReg ∧
     (renderTok eCfg false (tokReg eReg) eCtx 3 (flatten eTmpl)).toOption.map (·.2)
       = some [kItem, [107], kIndex, [107], [122, 122]] :=
   ⟨eBF, eGrammar.1, eGrammar.2, by decide, by decide⟩
+
+/-- a template with every kind of construct has non-nested blocks: hypothesis of `c12_parse_flatten` -/
+example : (∀ s ∈ eTmpl, s.wf = true) ∧ parse (flatten eTmpl) = some eTmpl := by decide
 
 /-- strict mode over the same data fails (the loop variables `item`, `k`, `index` are unbound names of the template):
     hypotheses of `c12_missing_reported` (a) -/
